@@ -36,6 +36,7 @@ type sstCase struct {
 	IComp   int         `json:"icomp"`
 	Bloom   bool        `json:"bloom"`
 	BloomN  uint64      `json:"bloomn"`
+	BloomFP float64     `json:"bloomfp"` // > 0: BloomFalsePositiveProbability
 	WBuf    int         `json:"wbuf"`
 	Readers []sstReader `json:"readers"`
 	Probes  []int       `json:"probes"` // ranks probed with Contains / Get / ScanStartingAt
@@ -179,6 +180,9 @@ func runSST(args []string) error {
 		}
 		if c.BloomN > 0 {
 			wopts = append(wopts, sstables.BloomExpectedNumberOfElements(c.BloomN))
+		}
+		if c.BloomFP > 0 {
+			wopts = append(wopts, sstables.EnableBloomFilter(), sstables.BloomFalsePositiveProbability(c.BloomFP))
 		}
 		closeErr := ""
 		if c.Writer == "skiplist" {
